@@ -241,34 +241,21 @@ Theorem int_literal_token : forall z rest, num_follow_ok rest = true ->
   lex_signed (render_int z ++ rest) = Some (render_int z, rest).
 Proof. intros z rest Hr. apply numeric_token; [apply render_int_numeric|exact Hr]. Qed.
 
-Lemma render_int_head_nonneg z : (0 <= z)%Z ->
-  exists c r, render_int z = c :: r /\ is_digit c = true.
-Proof.
-  intros Hz. destruct z as [|p|p]; [| |lia]; cbn [render_int].
-  - exists 48, []. split; reflexivity.
-  - change (Z.to_N (Z.pos p)) with (N.pos p). pose proof (dec_digits (N.pos p)) as Hd.
-    pose proof (uint_chars_nonempty (N.pos p)) as Hne.
-    destruct (dec_of_N (N.pos p)) as [|c r]; [contradiction|]. exists c, r. split; [reflexivity|].
-    cbn [forallb] in Hd. apply andb_prop in Hd. tauto.
-Qed.
-
-(* after a minus operator a non-negative literal leaves the operator an operator ... *)
-Theorem minus_then_int_guarded : forall z rest, (0 <= z)%Z ->
-  lex_minus (45 :: render_int z ++ rest) = OpMinus (render_int z ++ rest).
-Proof.
-  intros z rest Hz. destruct (render_int_head_nonneg z Hz) as (c & r & -> & Hc).
-  cbn [app]. unfold lex_minus. change (45 =? 45) with true. cbn iota.
-  rewrite (digit_not_minus c Hc). reflexivity.
-Qed.
-
-(* ... a negative one turns it - and the literal, and the rest of the line - into a comment *)
-Theorem minus_then_int_refuted : exists z rest,
-  lex_minus (45 :: render_int z ++ rest) = Comment (render_int (Z.opp z) ++ rest).
-Proof. exists (-5)%Z, [32; 65; 83; 32; 120]. vm_compute. reflexivity. Qed.
-
+(* "-" directly followed by a negative literal would be a comment ... *)
 Theorem minus_then_negative : forall p rest,
   lex_minus (45 :: render_int (Zneg p) ++ rest) = Comment (render_int (Zpos p) ++ rest).
 Proof. intros p rest. reflexivity. Qed.
+
+(* ... the unary operator as rendered is an operator for EVERY operand text *)
+Theorem neg_operand_is_operator : forall le lit rest, lit <> [] ->
+  lex_minus (render_neg le lit ++ rest) = OpMinus (tl (render_neg le lit) ++ rest).
+Proof.
+  intros le lit rest Hne. destruct lit as [|c l]; [contradiction|]. unfold render_neg.
+  destruct (le || starts_minus (c :: l)) eqn:E; cbn [app tl].
+  - reflexivity.
+  - apply orb_false_iff in E. destruct E as [_ E]. cbn [starts_minus] in E.
+    unfold lex_minus. change (45 =? 45) with true. cbn iota. rewrite E. reflexivity.
+Qed.
 
 (* ------------------------------------------------------------------ Numeric / Float *)
 
